@@ -1,0 +1,137 @@
+//go:build verif
+
+package simplewlru
+
+// Machine-checked contracts for /verif (read as text by the VC generator; no code).
+//
+// The cache is specified against the sequence model of container/list (contracts/trusted/containerlist.contracts):
+// lel[c.evictList][0 .. llen) are the list elements, most recently used first.
+//
+//@ ghost nEvict int
+//@ ghost gEvictKey interface{}
+//@ ghost gEvictVal interface{}
+//@ // the eviction callback is recorded: number of calls, last key and value
+//@ funcfield Cache.onEvict
+//@   params key, value
+//@   modifies nEvict, gEvictKey, gEvictVal
+//@   ghost nEvict = old(nEvict) + 1
+//@   ghost gEvictKey = key
+//@   ghost gEvictVal = value
+//@
+//@ spec ent(e *list.Element) *entry = unbox(e.Value, "*entry")
+//@ // abstract view: key k is cached / its value / its weight
+//@ spec lhas(c *Cache, k interface{}) bool = has(c.items, k)
+//@ spec lval(c *Cache, k interface{}) interface{} = ent(c.items[k]).value
+//@ spec lwt(c *Cache, k interface{}) int = ent(c.items[k]).weight
+//@ // inlist(c, e): e is an element of the eviction list at the position it claims
+//@ spec inlist(c *Cache, e *list.Element) bool = e != nil && lown[e] == c.evictList && 0 <= lidx[e] && lidx[e] < llen[c.evictList] && lel[c.evictList][lidx[e]] == e
+//@ // representation invariant: items and the eviction list hold the same entries, each under its own key
+//@ inv Cache cinv(c): c != nil && c.evictList != nil && c.items != nil && lwf(c.evictList) && len(c.items) == llen[c.evictList] &&
+//@   forall(k interface{}, has(c.items, k) ==> inlist(c, c.items[k]) && typeis(c.items[k].Value, "*entry") && ent(c.items[k]) != nil && ent(c.items[k]).key == k) &&
+//@   forall(i, 0, llen[c.evictList], typeis(lel[c.evictList][i].Value, "*entry") && ent(lel[c.evictList][i]) != nil && has(c.items, ent(lel[c.evictList][i]).key) && c.items[ent(lel[c.evictList][i]).key] == lel[c.evictList][i])
+//@
+//@ func (*Cache).Contains
+//@   requires cinv(c)
+//@   ensures  result == lhas(c, key)
+//@ func (*Cache).Peek
+//@   requires cinv(c)
+//@   ensures  result1 == lhas(c, key) && (result1 ==> result0 == lval(c, key)) && (!result1 ==> result0 == nil)
+//@ func (*Cache).Len
+//@   requires cinv(c)
+//@   ensures  result == len(c.items)
+//@ func (*Cache).Weight
+//@   requires c != nil
+//@   ensures  result == c.weight
+//@ func (*Cache).Total
+//@   requires cinv(c)
+//@   ensures  result0 == c.weight && result1 == len(c.items)
+//@ func (*Cache).GetOldest
+//@   requires cinv(c)
+//@   ensures  result2 == (len(c.items) > 0)
+//@   ensures  result2 ==> result0 == ent(lel[c.evictList][llen[c.evictList] - 1]).key && lhas(c, result0) && result1 == lval(c, result0)
+//@   ensures  !result2 ==> result0 == nil && result1 == nil
+//@
+//@ // removeElement: the entry of e leaves the cache, everything else stays; the callback is called once with its key and value
+//@ func (*Cache).removeElement
+//@   requires cinv(c) && inlist(c, e)
+//@   modifies c.items[ent(e).key], c.weight, lel[c.evictList], llen[c.evictList], lidx[*], lown[e], nEvict, gEvictKey, gEvictVal
+//@   ensures  [gone] !lhas(c, old(ent(e).key)) && len(c.items) == old(len(c.items)) - 1
+//@   ensures  [inv] cinv(c)
+//@   ensures  [others] forall(k interface{}, k != old(ent(e).key) ==> lhas(c, k) == old(lhas(c, k)) && c.items[k] == old(c.items[k]))
+//@   ensures  [order] forall(i, 0, old(lidx[e]), lel[c.evictList][i] == old(lel[c.evictList][i])) && forall(i, old(lidx[e]), llen[c.evictList], lel[c.evictList][i] == old(lel[c.evictList][i + 1]))
+//@   ensures  [weight] c.weight == (old(c.weight) - ent(e).weight) % 18446744073709551616
+//@   ensures  [evict] c.onEvict != nil ==> nEvict == old(nEvict) + 1 && gEvictKey == ent(e).key && gEvictVal == ent(e).value
+//@   ensures  [noevict] c.onEvict == nil ==> nEvict == old(nEvict)
+//@
+//@ // within(c): no more entries and weight than configured
+//@ spec within(c *Cache) bool = c.weight <= c.maxWeight && len(c.items) <= c.maxSize
+//@
+//@ func (*Cache).Remove
+//@   requires cinv(c)
+//@   modifies c.items[key], c.weight, lel[c.evictList], llen[c.evictList], lidx[*], lown[*], nEvict, gEvictKey, gEvictVal
+//@   ensures  cinv(c) && result == old(lhas(c, key)) && !lhas(c, key) && len(c.items) == old(len(c.items)) - ite(result, 1, 0)
+//@   ensures  [others] forall(k interface{}, k != key ==> lhas(c, k) == old(lhas(c, k)) && c.items[k] == old(c.items[k]))
+//@   ensures  [weight] c.weight == ite(result, (old(c.weight) - old(lwt(c, key))) % 18446744073709551616, old(c.weight))
+//@   ensures  [evict] nEvict == old(nEvict) + ite(result && c.onEvict != nil, 1, 0) && (result && c.onEvict != nil ==> gEvictKey == key && gEvictVal == old(lval(c, key)))
+//@
+//@ // RemoveOldest removes the entry at the back of the list (the least recently used one)
+//@ func (*Cache).RemoveOldest
+//@   requires cinv(c)
+//@   modifies c.items[*], c.weight, lel[c.evictList], llen[c.evictList], lidx[*], lown[*], nEvict, gEvictKey, gEvictVal
+//@   ensures  cinv(c) && result2 == old(len(c.items) > 0)
+//@   ensures  result2 ==> result0 == old(ent(lel[c.evictList][llen[c.evictList] - 1]).key) && old(lhas(c, result0)) && result1 == old(lval(c, result0)) && !lhas(c, result0) && len(c.items) == old(len(c.items)) - 1
+//@   ensures  !result2 ==> result0 == nil && result1 == nil && len(c.items) == 0
+//@   ensures  [others] forall(k interface{}, k != result0 ==> lhas(c, k) == old(lhas(c, k)) && c.items[k] == old(c.items[k]))
+//@   ensures  [order] forall(i, 0, llen[c.evictList], lel[c.evictList][i] == old(lel[c.evictList][i]))
+//@   ensures  [weight] result2 ==> c.weight == (old(c.weight) - old(lwt(c, result0))) % 18446744073709551616
+//@   ensures  [evict] nEvict == old(nEvict) + ite(result2 && c.onEvict != nil, 1, 0)
+//@
+//@ func (*Cache).removeOldest
+//@   requires cinv(c)
+//@   modifies c.items[*], c.weight, lel[c.evictList], llen[c.evictList], lidx[*], lown[*], nEvict, gEvictKey, gEvictVal
+//@   ensures  cinv(c) && len(c.items) == old(len(c.items)) - ite(old(len(c.items)) > 0, 1, 0)
+//@   ensures  [removed] old(len(c.items)) > 0 ==> !lhas(c, old(ent(lel[c.evictList][llen[c.evictList] - 1]).key))
+//@   ensures  [others] forall(k interface{}, old(len(c.items)) == 0 || k != old(ent(lel[c.evictList][llen[c.evictList] - 1]).key) ==> lhas(c, k) == old(lhas(c, k)) && c.items[k] == old(c.items[k]))
+//@   ensures  [order] forall(i, 0, llen[c.evictList], lel[c.evictList][i] == old(lel[c.evictList][i]))
+//@   ensures  [weight] old(len(c.items)) > 0 ==> c.weight == (old(c.weight) - old(ent(lel[c.evictList][llen[c.evictList] - 1]).weight)) % 18446744073709551616
+//@   ensures  [evict] nEvict == old(nEvict) + ite(old(len(c.items)) > 0 && c.onEvict != nil, 1, 0)
+//@
+//@ // normalize evicts from the back of the list until the cache is within its bounds: what remains is a prefix of the
+//@ // old list (most recently used entries), nothing is added or changed
+//@ func (*Cache).normalize
+//@   requires cinv(c)
+//@   modifies c.items[*], c.weight, lel[c.evictList], llen[c.evictList], lidx[*], lown[*], nEvict, gEvictKey, gEvictVal
+//@   ensures  cinv(c) && within(c)
+//@   ensures  [subset] forall(k interface{}, lhas(c, k) ==> old(lhas(c, k)) && c.items[k] == old(c.items[k]))
+//@   ensures  [lru] llen[c.evictList] <= old(llen[c.evictList]) && forall(i, 0, llen[c.evictList], lel[c.evictList][i] == old(lel[c.evictList][i]))
+//@   ensures  [evict] c.onEvict != nil ==> nEvict == old(nEvict) + old(len(c.items)) - len(c.items)
+//@   ensures  [noevict] c.onEvict == nil ==> nEvict == old(nEvict)
+//@   loop 1 modifies c.items[*], c.weight, lel[c.evictList], llen[c.evictList], lidx[*], lown[*], nEvict, gEvictKey, gEvictVal
+//@   loop 1 invariant cinv(c)
+//@   loop 1 invariant forall(k interface{}, lhas(c, k) ==> old(lhas(c, k)) && c.items[k] == old(c.items[k]))
+//@   loop 1 invariant llen[c.evictList] <= old(llen[c.evictList]) && forall(i, 0, llen[c.evictList], lel[c.evictList][i] == old(lel[c.evictList][i]))
+//@   loop 1 invariant (c.onEvict != nil ==> nEvict == old(nEvict) + old(len(c.items)) - len(c.items)) && (c.onEvict == nil ==> nEvict == old(nEvict))
+//@
+//@ func (*Cache).Resize
+//@   requires cinv(c)
+//@   modifies c.maxWeight, c.maxSize, c.items[*], c.weight, lel[c.evictList], llen[c.evictList], lidx[*], lown[*], nEvict, gEvictKey, gEvictVal
+//@   ensures  cinv(c) && within(c) && c.maxWeight == maxWeight && c.maxSize == maxSize
+//@   ensures  [subset] forall(k interface{}, lhas(c, k) ==> old(lhas(c, k)) && c.items[k] == old(c.items[k]))
+//@   ensures  [lru] llen[c.evictList] <= old(llen[c.evictList]) && forall(i, 0, llen[c.evictList], lel[c.evictList][i] == old(lel[c.evictList][i]))
+//@
+//@ // Get refreshes recency: the entry moves to the front, the contents do not change
+//@ func (*Cache).Get
+//@   requires cinv(c)
+//@   modifies lel[c.evictList], lidx[*]
+//@   ensures  cinv(c) && result1 == lhas(c, key) && (result1 ==> result0 == lval(c, key) && lel[c.evictList][0] == c.items[key]) && (!result1 ==> result0 == nil)
+//@   ensures  [keep] !result1 ==> forall(i, 0, llen[c.evictList], lel[c.evictList][i] == old(lel[c.evictList][i]))
+//@   ensures  [order] result1 ==> forall(i, 0, old(lidx[c.items[key]]), lel[c.evictList][i + 1] == old(lel[c.evictList][i])) && forall(i, old(lidx[c.items[key]]) + 1, llen[c.evictList], lel[c.evictList][i] == old(lel[c.evictList][i]))
+//@
+//@ // Keys lists the keys from the oldest (back of the list) to the newest
+//@ func (*Cache).Keys
+//@   requires cinv(c)
+//@   ensures  fresh(result) && len(result) == len(c.items) && forall(j, 0, len(result), result[j] == ent(lel[c.evictList][llen[c.evictList] - 1 - j]).key && lhas(c, result[j]))
+//@   loop 1 modifies keys[*]
+//@   loop 1 invariant 0 <= i && i <= llen[c.evictList] && len(keys) == llen[c.evictList] && arrfresh(keys, old(_alloc))
+//@   loop 1 invariant ent == ite(i < llen[c.evictList], lel[c.evictList][llen[c.evictList] - 1 - i], nil)
+//@   loop 1 invariant forall(j, 0, i, keys[j] == ent(lel[c.evictList][llen[c.evictList] - 1 - j]).key)
